@@ -168,7 +168,7 @@ def run(ctx, replay=None):
     for pi, prog in enumerate(progs):
         text = json.dumps(prog)
         used = [v for v in inputs['vars'] if ('"' + v + '"') in text]
-        pats = ['T', 'F'] + [(rnd.choice(['flipT', 'flipF']), rnd.choice(used or inputs['vars'])) for _ in range(nflip)] + ['rand']
+        pats = ['T', 'F'] + [(rnd.choice(['flipT', 'flipF']), rnd.choice(used or inputs['vars'])) for _ in range(nflip)] + ([] if ctx.quick else ['rand'])
         for j, pat in enumerate(pats):
             g = family_inputs(rnd, inputs, pat, (pi + j) % 7)
             g = [x for x in g if x['name'] in used]
